@@ -1,6 +1,232 @@
 import CkbVerif.Driver.Util
+import CkbVerif.Model.Orphan
+import CkbVerif.Model.Skip
+import CkbVerif.Model.Inflight
+import CkbVerif.Model.HeaderMap
+
+/-! Line-protocol driver for C17: four sub-modes (`orphan`, `skip`, `inflight`, `headermap`);
+protocol in harness/hnode/src/c17.rs. -/
 namespace CkbVerif.Driver.C17
-def main (_args : List String) : IO UInt32 := do
-  IO.eprintln "C17: model driver not implemented"
-  return 2
+open CkbVerif.Driver
+
+def canon (l : List Nat) : List Nat :=
+  (l.mergeSort (fun a b => decide (a ≤ b))).eraseDups
+
+def showSet (l : List Nat) : String := showNatList (canon l)
+
+/-! ### orphan -/
+namespace O
+open CkbVerif.Orphan
+
+def tail (s : Pool) : String := s!"len={s.pool.length} leaders={showSet s.leaders}"
+
+/-- released blocks: sorted ids, duplicates kept (so a double release would show) -/
+def showBlks (l : List Blk) : String :=
+  showNatList ((l.map (·.id)).mergeSort (fun a b => decide (a ≤ b)))
+
+def step (s : Pool) (ts : List String) : Pool × String :=
+  match ts with
+  | ["insert", i, p, e] =>
+    match parseNat? i, parseNat? p, parseNat? e with
+    | some i, some p, some e =>
+      let s' := insert s ⟨i, p, e⟩
+      (s', tail s')
+    | _, _, _ => (s, "bad-op")
+  | ["release", p] =>
+    match parseNat? p with
+    | some p =>
+      let r := removeByParent s p
+      (r.1, s!"{showBlks r.2} {tail r.1}")
+    | none => (s, "bad-op")
+  | ["expire", e] =>
+    match parseNat? e with
+    | some e =>
+      let r := cleanExpired s e
+      (r.1, s!"{showBlks r.2} {tail r.1}")
+    | none => (s, "bad-op")
+  | _ => (s, "bad-op")
+end O
+
+/-! ### skip -/
+namespace S
+open CkbVerif.Skip
+
+structure St where
+  hdrs : Array (Option Hdr) := #[]
+  /-- main chain ids by number (for the `fast_scanner` shortcut) -/
+  main : Array Nat := #[]
+
+def St.store (s : St) : Store := fun i => (s.hdrs.getD i none)
+
+def St.scan (s : St) (on : Bool) : Nat → Hdr → Option Hdr := fun number cur =>
+  if on && decide (cur.number < s.main.size) && (s.main.getD cur.number 0 == cur.id) then
+    if number < s.main.size then s.store (s.main.getD number 0) else none
+  else none
+
+def setAt (a : Array (Option Hdr)) (i : Nat) (h : Hdr) : Array (Option Hdr) :=
+  let a := if a.size ≤ i then a ++ Array.replicate (i + 1 - a.size) none else a
+  a.set! i (some h)
+
+def showOpt (o : Option Nat) : String :=
+  match o with
+  | some x => toString x
+  | none => "none"
+
+/-- main chain ids from a tip, genesis first -/
+def chainOf (s : St) (tip : Hdr) : Array Nat :=
+  let rec go (fuel : Nat) (h : Hdr) (acc : List Nat) : List Nat :=
+    match fuel with
+    | 0 => h.id :: acc
+    | f + 1 =>
+      if h.number == 0 then h.id :: acc
+      else match s.store h.parent with
+        | some p => go f p (h.id :: acc)
+        | none => h.id :: acc
+  (go tip.number tip []).toArray
+
+def step (s : St) (ts : List String) : St × String :=
+  match ts with
+  | ["hdr", i, n, p] =>
+    match parseNat? i, parseNat? n, parseNat? p with
+    | some i, some n, some p =>
+      let h := buildSkip s.store (s.scan false) ⟨i, n, p, none⟩
+      ({ s with hdrs := setAt s.hdrs i h }, s!"skip={showOpt h.skip}")
+    | _, _, _ => (s, "bad-op")
+  | ["main", i] =>
+    match (parseNat? i).bind s.store with
+    | some tip =>
+      let m := chainOf s tip
+      ({ s with main := m }, s!"ok {m.size}")
+    | none => (s, "bad-op")
+  | ["anc", i, n, sc] =>
+    match (parseNat? i).bind s.store, parseNat? n with
+    | some h, some n =>
+      (s, showOpt ((getAncestor s.store (s.scan (sc == "1")) h n).map (·.id)))
+    | _, _ => (s, "bad-op")
+  | ["loc", i, sc] =>
+    match (parseNat? i).bind s.store with
+    | some h =>
+      let anc := fun base index =>
+        (s.store base).bind (fun b => (getAncestor s.store (s.scan (sc == "1")) b index).map (·.id))
+      match getLocator anc 0 h.number h.id with
+      | some l => (s, showNatList l)
+      | none => (s, "panic")
+    | none => (s, "bad-op")
+  | ["skipheight", n] =>
+    match parseNat? n with
+    | some n => (s, toString (getSkipHeight n))
+    | none => (s, "bad-op")
+  | _ => (s, "bad-op")
+end S
+
+/-! ### inflight -/
+namespace I
+open CkbVerif.Inflight
+
+def blkLe (a b : Blk) : Bool := a.number < b.number || (a.number == b.number && a.hash ≤ b.hash)
+
+def showBlk (b : Blk) : String := s!"{b.number}:{b.hash}"
+
+def dump (s : Inflight) : String :=
+  let sts := s.states.mergeSort (fun a b => blkLe a.1 b.1)
+  let a := if sts.isEmpty then "-" else ";".intercalate (sts.map fun e => s!"{showBlk e.1}@{e.2.peer}/{e.2.ts}")
+  let scs := s.scheds.mergeSort (fun a b => decide (a.1 ≤ b.1))
+  let b := if scs.isEmpty then "-" else ";".intercalate (scs.map fun e =>
+    let hs := e.2.hashes.mergeSort blkLe
+    s!"{e.1}:{e.2.taskCount}:[{",".intercalate (hs.map showBlk)}]")
+  let trs := s.trace.mergeSort (fun a b => blkLe a.1 b.1)
+  let c := if trs.isEmpty then "-" else ";".intercalate (trs.map fun e => s!"{showBlk e.1}/{e.2}")
+  s!"states={a} scheds={b} trace={c} restart={s.restartNumber} div={s.analyzer.fast},{s.analyzer.normal},{s.analyzer.low}"
+
+def step (s : Inflight) (ts : List String) : Inflight × String :=
+  match ts with
+  | ["insert", now, peer, n, h] =>
+    match parseNats? [now, peer, n, h] with
+    | some [now, peer, n, h] =>
+      let r := insert s now peer ⟨n, h⟩
+      (r.1, s!"{r.2} {dump r.1}")
+    | _ => (s, "bad-op")
+  | ["rmpeer", peer] =>
+    match parseNat? peer with
+    | some peer =>
+      let r := removeByPeer s peer
+      (r.1, s!"{r.2} {dump r.1}")
+    | none => (s, "bad-op")
+  | ["rmblock", now, n, h] =>
+    match parseNats? [now, n, h] with
+    | some [now, n, h] =>
+      let r := removeByBlock s now ⟨n, h⟩
+      (r.1, s!"{r.2} {dump r.1}")
+    | _ => (s, "bad-op")
+  | ["prune", now, tip] =>
+    match parseNats? [now, tip] with
+    | some [now, tip] =>
+      let r := prune s now tip
+      (r.1, s!"disconnect={showSet r.2} {dump r.1}")
+    | _ => (s, "bad-op")
+  | ["mark", now, tip] =>
+    match parseNats? [now, tip] with
+    | some [now, tip] =>
+      let s' := markSlow s now tip
+      (s', s!"ok {dump s'}")
+    | _ => (s, "bad-op")
+  | ["consts"] =>
+    (s, s!"{CkbVerif.Gen.Sync.BLOCK_DOWNLOAD_TIMEOUT} {CkbVerif.Gen.Sync.INIT_BLOCKS_IN_TRANSIT_PER_PEER} {CkbVerif.Gen.Sync.MAX_BLOCKS_IN_TRANSIT_PER_PEER} {CkbVerif.Gen.Sync.MAX_OUTBOUND_PEERS_TO_PROTECT_FROM_DISCONNECT} {TIME_TRACE_SIZE} {FAST_INDEX} {NORMAL_INDEX} {LOW_INDEX}")
+  | _ => (s, "bad-op")
+end I
+
+/-! ### headermap -/
+namespace H
+open CkbVerif.HeaderMap
+
+def tail (s : HM) : String :=
+  s!"mem={showNatList (s.memory.map (·.1))} back={showSet (s.backend.map (·.1))}"
+
+def showAns : Ans → String
+  | .unit => "ok"
+  | .val (some v) => toString v
+  | .val none => "none"
+  | .bool b => toString b
+
+def step (s : HM) (ts : List String) : HM × String :=
+  match ts with
+  | ["cfg", l] =>
+    match parseNat? l with
+    | some l => ({ limit := l }, "ok")
+    | none => (s, "bad-op")
+  | ["insert", k, v] =>
+    match parseNat? k, parseNat? v with
+    | some k, some v =>
+      let hit := insertHit s k
+      let r := HeaderMap.step s (.insert k v)
+      (r.1, s!"{if hit then "hit" else "miss"} {tail r.1}")
+    | _, _ => (s, "bad-op")
+  | [op, k] =>
+    match parseNat? k with
+    | some k =>
+      let o : Option Op :=
+        if op == "get" then some (.get k) else if op == "contains" then some (.contains k)
+        else if op == "remove" then some (.remove k) else none
+      match o with
+      | some o =>
+        let r := HeaderMap.step s o
+        (r.1, s!"{showAns r.2} {tail r.1}")
+      | none => (s, "bad-op")
+    | none => (s, "bad-op")
+  | ["spill"] =>
+    let r := HeaderMap.step s .spill
+    (r.1, s!"ok {tail r.1}")
+  | _ => (s, "bad-op")
+end H
+
+def main (args : List String) : IO UInt32 :=
+  match args with
+  | ["orphan"] => runLines ({} : CkbVerif.Orphan.Pool) O.step
+  | ["skip"] => runLines ({} : S.St) S.step
+  | ["inflight"] => runLines ({} : CkbVerif.Inflight.Inflight) I.step
+  | ["headermap"] => runLines ({ limit := 0 } : CkbVerif.HeaderMap.HM) H.step
+  | _ => do
+    IO.eprintln "usage: ckbmodel C17 orphan|skip|inflight|headermap"
+    return 2
+
 end CkbVerif.Driver.C17
